@@ -447,7 +447,7 @@ JOBS['C07'] += [FX_A, FX_B, FX_C, FX_BIN, FX_G]
 JOBS['C01'] += [FX_G, FX_G2]
 JOBS['C02'] += [FX_G, FX_G2]
 JOBS['C14'] += [md_fixed('md_fixed_contains_n16_s2', 0, 16, 2, tiers=T)]     # md_fixed_contains_n24_s3 (24 points, coordinates 0..31): out of memory at 14 GB after 497 s - not a job
-# pending verdict: JOBS['C11'] += [mapped_fixed('mapped_fixed_u32_n40_dups_s5', 'uint32_t', dup_data('uint32_t', 40, 5), tiers=T)]
+JOBS['C11'] += [mapped_fixed('mapped_fixed_u32_n40_dups_s5', 'uint32_t', dup_data('uint32_t', 40, 5), tiers=T)]
 JOBS['C05'] += [dyn_fixed('dyn_fixed_q_h24_s3', 0, 24, 3, tiers=T)]
 JOBS['C06'] += [dict(dyn_fixed('dyn_fixed_it_h24_s3', 1, 24, 3, tiers=T), recursion=[('F__ZN3pgm8internal9LoserTreeIhE11init_winnerERKh', 6)])]     # this history leaves more non-empty levels than s1: init_winner nests deeper
 JOBS['C15'] += [dyn_fixed('dyn_fixed_inv_h24_s3_i2', 2, 24, 3, idxl=2, tiers=T)]
